@@ -441,4 +441,89 @@ theorem spells_first (pr : List UInt8 → Option R) (x : Prim R) (tx : List UInt
     exact ⟨2, [60, 60], by decide, hn, hsl, ⟨by decide, by decide, by decide⟩, fun hi => absurd hi (by decide)⟩
   | stream info inner => simp [Spells] at hx
 
+
+theorem spells_ne_nil (pr : List UInt8 → Option R) (v : Prim R) (t : List UInt8) (h : Spells pr v t) : t ≠ [] := by
+  cases v with
+  | null => simp only [Spells] at h; subst h; decide
+  | bool b => simp only [Spells] at h; subst h; cases b <;> decide
+  | int i => simp only [Spells] at h; exact (intTok_spec t i h.1 h.2.1 h.2.2).2.2.1
+  | real r => simp only [Spells] at h; exact (realTok_spec t h.1).2.2.1
+  | str s => simp only [Spells] at h; rcases h with ⟨b, rfl, _⟩ | ⟨b, rfl, _⟩ <;> simp
+  | name s => simp only [Spells] at h; obtain ⟨b, rfl, _⟩ := h; simp
+  | ref id gen => simp only [Spells] at h; obtain ⟨a, g1, b, g2, rfl, _⟩ := h; simp
+  | arr xs => simp only [Spells] at h; obtain ⟨g, r, rfl, _⟩ := h; simp
+  | dict kvs => simp only [Spells] at h; obtain ⟨g, r, rfl, _⟩ := h; simp
+  | stream info inner => simp [Spells] at h
+
+theorem spellsElems_ne_nil (pr : List UInt8 → Option R) (xs : List (Prim R)) :
+    ∀ r, SpellsElems pr xs r → r ≠ [] := by
+  induction xs with
+  | nil => intro r h; simp only [SpellsElems] at h; subst h; simp
+  | cons x xs ih =>
+    intro r h
+    simp only [SpellsElems] at h
+    obtain ⟨tx, g, r', rfl, _, _, hr, _⟩ := h
+    have := ih r' hr
+    simp [this]
+
+theorem spellsEntries_ne_nil (pr : List UInt8 → Option R) (kvs : List (List UInt8 × Prim R)) :
+    ∀ r, SpellsEntries pr kvs r → r ≠ [] := by
+  cases kvs with
+  | nil => intro r h; simp only [SpellsEntries] at h; subst h; simp
+  | cons kv kvs =>
+    obtain ⟨k, v⟩ := kv
+    intro r h
+    simp only [SpellsEntries] at h
+    obtain ⟨kb, g1, tv, g2, r', rfl, _⟩ := h
+    simp
+
+/-- after an array element: the rest of the array never merges with it -/
+theorem ahead_elems (pr : List UInt8 → Option R) (xs : List (Prim R)) :
+    ∀ (r : List UInt8), SpellsElems pr xs r → ∀ {buf : Buf} (g rest : List UInt8) (q : Nat), Gap g →
+      Suffix buf q (g ++ r ++ rest) → Ahead buf q := by
+  induction xs with
+  | nil =>
+    intro r h buf g rest q hg hs
+    simp only [SpellsElems] at h; subst h
+    obtain ⟨hn, hsl⟩ := next_delim g 93 rest q hg (by simpa using hs) (by decide) (by decide) (by decide) (by simp)
+    exact ahead_of_lexeme _ [93] hn hsl (by decide) (by decide) (fun hi => absurd hi (by decide))
+  | cons x xs ih =>
+    intro r h buf g rest q hg hs
+    simp only [SpellsElems] at h
+    obtain ⟨tx, g', r', rfl, hx, hg', hr, hbnd⟩ := h
+    have hne : g' ++ r' ≠ [] := by simp [spellsElems_ne_nil pr xs r' hr]
+    have hs1 : Suffix buf q (g ++ tx ++ (g' ++ r' ++ rest)) := by simpa using hs
+    obtain ⟨k, t, hk, hn, hsl, hf, hint⟩ := spells_first pr x tx hx g (g' ++ r' ++ rest) q hg hs1
+      (fun hb => by simpa using bnd_append (t := rest) (hbnd hb) hne)
+    refine ahead_of_lexeme _ t hn hsl hf.neR hf.neStream ?_
+    intro hi
+    rcases hint hi with ⟨hk', _⟩ | hnr
+    · subst hk'
+      have hs2 : Suffix buf (q + g.length + tx.length) (g' ++ r' ++ rest) := by
+        have := Suffix.drop (a := g ++ tx) (by simpa using hs1)
+        simpa [Nat.add_assoc] using this
+      exact (ih r' hr g' rest _ hg' hs2).notR
+    · exact hnr
+
+/-- after a dictionary value: the next key or `>>` never merges with it -/
+theorem ahead_entries (pr : List UInt8 → Option R) (kvs : List (List UInt8 × Prim R)) (r : List UInt8)
+    (h : SpellsEntries pr kvs r) {buf : Buf} (g rest : List UInt8) (q : Nat) (hg : Gap g)
+    (hs : Suffix buf q (g ++ r ++ rest)) : Ahead buf q := by
+  cases kvs with
+  | nil =>
+    simp only [SpellsEntries] at h; subst h
+    obtain ⟨hn, hsl⟩ := next_double g 62 rest q hg (by simpa using hs) (Or.inr rfl)
+    exact ahead_of_lexeme _ [62, 62] hn hsl (by decide) (by decide) (fun hi => absurd hi (by decide))
+  | cons kv kvs =>
+    obtain ⟨k, v⟩ := kv
+    simp only [SpellsEntries] at h
+    obtain ⟨kb, g1, tv, g2, r', rfl, hnb, hg1, hb1, hv, hg2, hr, _⟩ := h
+    obtain ⟨_, hreg⟩ := nameBody_spec kb k hnb
+    have hne : g1 ++ tv ≠ [] := by
+      simp [spells_ne_nil pr v tv hv]
+    have hs1 : Suffix buf q (g ++ (47 :: kb) ++ (g1 ++ tv ++ g2 ++ r' ++ rest)) := by simpa using hs
+    obtain ⟨hn, hsl⟩ := next_name g kb _ q hg hs1 hreg (by simpa using bnd_append (t := g2 ++ r' ++ rest) hb1 hne)
+    refine ahead_of_lexeme _ (47 :: kb) hn hsl (by simp) (by simp [kwStream]) ?_
+    intro hi; simp [isInteger, allDigits, isDigit] at hi
+
 end PdfLex
